@@ -493,6 +493,8 @@ func extractLogic(repo string) (string, []string, error) {
 		{"defaults", "def effBatchSize (n : Nat) : Nat := if untranslated n then 0 else 0\ndef effBatchBytes (n : Nat) : Nat := if untranslated n then 0 else 0\ndef effMaxAttempts (n : Nat) : Nat := if untranslated n then 0 else 0", piece_defaults},
 		{"timerArm", "def timerArmSites : List String := []", piece_timerArm},
 		{"readRecord", "def readRecordResets : Bool := untranslated ()", piece_readRecord},
+		{"newWriter", "def newWriterMap : List (String × String) := []", piece_newWriter},
+		{"completeOrder", "def completeStoresErrFirst : Bool := untranslated ()", piece_completeOrder},
 		{"roundTripDeadline", "def roundTripDeadlineSetters : List String := []", func(ef, wf *ast.File) (string, error) { return piece_roundTripDeadline(repo) }},
 	}
 	var sb strings.Builder
